@@ -33,7 +33,51 @@ def _one(job):
                 "queries": 0, "skipped": None, "cls": "?"}
 
 
+_CANARY_DONE = False
+
+
+def _canary():
+    """Before fragment verdicts are used: the comparison must accept the right term for a real fragment and reject wrong ones
+    (wrong opcode, operands in the other order, the two arms of an If exchanged, an operand evaluated twice)."""
+    global _CANARY_DONE
+    if _CANARY_DONE:
+        return
+    from vf.core import use_repo
+    use_repo()
+    import pyteal as pt
+    from fragcheck import scenarios as sc
+    from fragcheck.scenarios import Scenario, SEQ, C, OP
+
+    def minus(term):
+        def build(env, v, mode):
+            x, cx = env.child("u")
+            y, cy = env.child("u")
+            return {"expr": pt.Minus(x, y), "term": term(cx, cy), "expect_error": None}
+        return Scenario("canary/minus", "BinaryExpr", build)
+
+    def if_(swap):
+        def build(env, v, mode):
+            c, cc = env.child("u")
+            a, ca = env.child("u")
+            b, cb = env.child("u")
+            return {"expr": pt.If(c, a, b), "term": SEQ(C(cc), ("ifnz", C(cb if swap else ca), C(ca if swap else cb))), "expect_error": None}
+        return Scenario("canary/if", "If", build)
+    good = [minus(lambda cx, cy: SEQ(C(cx), C(cy), OP("-"))), if_(False)]
+    bad = [minus(lambda cx, cy: SEQ(C(cx), C(cy), OP("+"))), minus(lambda cx, cy: SEQ(C(cy), C(cx), OP("-"))),
+           minus(lambda cx, cy: SEQ(C(cx), C(cx), C(cy), OP("-"))), if_(True)]
+    for g in good:
+        r = sc.run_instance(g, 6, "Application")
+        if r["mismatches"] or r.get("skipped") or not r["queries"]:
+            raise RuntimeError(f"fragcheck canary: the right term for {g.name} is not accepted: {r}")
+    for b in bad:
+        r = sc.run_instance(b, 6, "Application")
+        if not r["mismatches"]:
+            raise RuntimeError(f"fragcheck canary: a wrong term for {b.name} is accepted: {r}")
+    _CANARY_DONE = True
+
+
 def run_fragcheck(report: Report, oid: str, classes=None, tier="quick"):
+    _canary()
     cat = _cat()
     jobs = []
     for i, sc in enumerate(cat):
